@@ -2,6 +2,7 @@
 # run_all.sh [quick|thorough] [seed]: run every check in turn, print one line each.
 tier=${1:-quick}; seed=${2:-1}
 cd "$(dirname "$0")/.."
+mkdir -p /tmp/scratch
 for i in 01 02 03 04 05 06 07 08 09 10 11 12 13 14 15 16 17 18 19 20; do
   t0=$(date +%s)
   VERIF_SEED=$seed ./check C$i --tier $tier > /tmp/scratch/run_${tier}_${seed}_C$i.log 2>&1
